@@ -380,12 +380,10 @@ def _abandon_case(prog, k, baseline):
     unfinished target, collect.  -> None (no manager entered there) | (names of survivors,)"""
     import stackscope
     R = Run([True, False, True])
-    prev = core._CUR[0]
-    core._CUR[0] = R
     hook = sys.unraisablehook
     sys.unraisablehook = lambda *a: None
     try:
-        g = prog.fn()
+        g = prog.instantiate(R)()
         try:
             for i in range(k + 1):
                 g.send(None if i == 0 else 1)
@@ -412,18 +410,17 @@ def _abandon_case(prog, k, baseline):
             del a, b
         R.truth.clear()
         R.foi = []
-        R.aborted = True          # the managers' exits run during collection; no hooks, no limits
+        R.release()               # the managers' exits run during collection, into R's own log
         g = None
         gc.collect()
         gc.collect()
         alive = sorted({type(r()).__name__ for r in refs if r() is not None})
         return (alive,)
     finally:
+        g = None
+        R.release()
+        gc.collect()              # nothing of this target is left to be finalised during a later run
         sys.unraisablehook = hook
-        core._CUR[0] = prev
-        g = prog.fn.__globals__
-        g["ns"].__dict__.clear()
-        g["d"].clear()
 
 
 def leg_purity(tier="quick", seed=0):
@@ -588,7 +585,7 @@ def leg_purity(tier="quick", seed=0):
                     vectors = []
 
                     def visit(R, prefix):
-                        vectors.append((list(prefix), R.log, R.nsusp, R.alive_log))
+                        vectors.append((list(prefix), R.trace, R.nsusp, R.alive_log))
 
                     explore(prog, None, cfg["max_runs"], None, on_suspend_base, visit)
                     jobs = [(vec, None, log, al) for vec, log, ns, al in vectors]
@@ -596,7 +593,7 @@ def leg_purity(tier="quick", seed=0):
                     if vectors and vectors[-1][2]:
                         k = rng.randrange(vectors[-1][2])
                         Rb = execute(prog, vectors[-1][0], k, None, on_suspend_base)
-                        jobs.append((vectors[-1][0], k, Rb.log, Rb.alive_log))
+                        jobs.append((vectors[-1][0], k, Rb.trace, Rb.alive_log))
                         del Rb
                     for vec, throw_at, base_log, base_alive in jobs:
                         col.count("branch_vectors")
@@ -621,12 +618,14 @@ def leg_purity(tier="quick", seed=0):
                             R1 = execute(prog, vec, throw_at, on_probe, on_suspend)
                             col.evaluations += 1
                             col.count("twin_runs")
-                            if R1.log != base_log:
+                            # traces were frozen when each driver finished (Run.release): events that
+                            # a finaliser adds to a run's log later are not part of the comparison
+                            if R1.trace != base_log:
                                 i = 0
-                                while i < min(len(R1.log), len(base_log)) and R1.log[i] == base_log[i]:
+                                while i < min(len(R1.trace), len(base_log)) and R1.trace[i] == base_log[i]:
                                     i += 1
                                 col.violation("event trace of the observed run differs from the unobserved twin at event %d: %r vs %r"
-                                              % (i, R1.log[i:i + 3], base_log[i:i + 3]), R1, prog, mode=mode, observed=variant)
+                                              % (i, list(R1.trace[i:i + 3]), list(base_log[i:i + 3])), R1, prog, mode=mode, observed=variant)
                             # retention: nothing of the target survives once the Stacks are dropped
                             refs = list(R1.mgr_refs) + list(R1.sentinels)
                             if R1.main_obj is not None:
